@@ -121,11 +121,10 @@ Definition op_ok (s : mstate) (o : mop) (s' : mstate) (p : part) : Prop :=
   | _ => True
   end.
 
-Fixpoint history_ok (s : mstate) (pend : pendl) (ops : list mop) : Prop :=
+Fixpoint history_ok (s : mstate) (ops : list mop) : Prop :=
   match ops with
   | [] => True
-  | o :: r => let '(s', p) := mux_step_part s o in
-              op_ok s o s' p /\ history_ok s' (snd (step_out s pend o p)) r
+  | o :: r => op_ok s o (fst (mux_step_part s o)) (snd (mux_step_part s o)) /\ history_ok (fst (mux_step_part s o)) r
   end.
 
 (* ---------------- the invariant ---------------- *)
@@ -509,7 +508,7 @@ Qed.
 
 Definition run_pkts (s : mstate) (ops : list mop) : list Packet := concat (map pa_pkts (snd (mux_run_parts s ops))).
 
-Theorem run_feed : forall ops s pend pl pm, inv s pend pl pm -> history_ok s pend ops ->
+Theorem run_feed : forall ops s pend pl pm, inv s pend pl pm -> history_ok s ops ->
   exists pl' pm' out (pend' : pendl),
     feed full_parsers pl pm (map obs_pkt (run_pkts s ops)) = Some (pl', pm', out) /\
     drain_data full_parsers pm' pl' = Some (map snd pend') /\
@@ -571,7 +570,7 @@ Qed.
 
 (* C01: demultiplexing what the Muxer wrote over a whole history yields exactly the expected data, all Ok *)
 Theorem roundtrip_history period ops :
-  history_ok D (new_muxer period) [] ops ->
+  history_ok D (new_muxer period) ops ->
   demux_all (concat (map mout_bytes (snd (mux_run (new_muxer period) ops)))) = map Ok (expect (new_muxer period) [] ops).
 Proof using D_parse D_write D_nil D_size.
   intros Hok.
@@ -605,6 +604,6 @@ Lemma no_desc_size ds bytes : no_desc16 ds bytes ->
 Proof. intros [-> ->]. reflexivity. Qed.
 
 Theorem roundtrip_history_nodesc period ops :
-  history_ok no_desc16 (new_muxer period) [] ops ->
+  history_ok no_desc16 (new_muxer period) ops ->
   demux_all (concat (map mout_bytes (snd (mux_run (new_muxer period) ops)))) = map Ok (expect (new_muxer period) [] ops).
 Proof. apply (roundtrip_history no_desc16 no_desc_premises no_desc_write (conj eq_refl eq_refl) no_desc_size). Qed.
